@@ -16,6 +16,7 @@ from concurrent.futures import ThreadPoolExecutor
 
 from .. import badProgGen as bg
 from .. import dump_tree as dt
+from .. import progGen as pg
 from .. import framework as fw
 
 ASM_EXCEPTIONS = {'FlipJumpParsingException', 'FlipJumpPreprocessorException', 'FlipJumpExprException',
@@ -43,7 +44,8 @@ def build_cases(ctx):
     groups = [
         bg.gen_lexing(rng, ctx.n(60, 400)), bg.gen_syntax(rng, ctx.n(260, 1500)), bg.gen_names(rng, ctx.n(120, 600)),
         bg.gen_layout(rng, ctx.n(176, 880)), bg.gen_range(rng, ctx.n(256, 2048)), bg.gen_arith(rng, ctx.n(360, 2880)),
-        bg.gen_recursion(rng, ctx.n(90, 184)), bg.gen_collisions(rng, ctx.n(76, 304)), bg.gen_huge(rng, ctx.n(56, 112), mem),
+        bg.gen_recursion(rng, ctx.n(90, 184)), bg.gen_collisions(rng, ctx.n(76, 304)),
+        bg.gen_bigint(rng, ctx.n(640, 2100)), bg.gen_interleave(rng, ctx.n(320, 3200)), layout_family(ctx, ctx.n(260, 2600)), bg.gen_huge(rng, ctx.n(56, 112), mem),
     ]
     valid = bg.gen_valid(rng, ctx.n(150, 1500))
     groups.append(valid)
@@ -65,6 +67,13 @@ def build_cases(ctx):
     groups.append(bg.gen_mutations(rng, ctx.n(1600, 24000), fast))
     cases = finish_cases([c for g in groups for c in g], len(ccases))
     return ccases + cases, cobs
+
+
+def layout_family(ctx, n):
+    """the C02 generator of primitive programs (progGen.py): pad / reserve / segment / wflip layouts, valid and with injected
+    faults, plus its directed programs, at every width and version"""
+    return [bg.case('layout-gen', j['src'], ', '.join(j['features'])[:120], w=j['w'], v=j['version'])
+            for j in pg.gen_jobs(ctx.rng, n)]
 
 
 def finish_cases(raw, k0):
@@ -365,7 +374,7 @@ def compare_with_model(ctx, cases, obs):
             runaway = o['result'] == 'exception' and 'maximal macro-expansion' in o.get('msg', '') and c['cls'] != 'recursion'
             if len(c['text']) < 6000 and not deep and not runaway and o.get('secs', 0) <= 0.3:
                 todo.append((c, o, 'dump'))
-    limit = ctx.n(700, 8000)
+    limit = ctx.n(1100, 9000)
     pre = [t for t in todo if t[2] == 'pre']
     dump = [t for t in todo if t[2] == 'dump']
     ctx.rng.shuffle(dump)
